@@ -304,7 +304,7 @@ func isIPLiteral(hostname string) bool {
 
 // sameHost compares authorities case-insensitively; an empty port ("host:") is the same authority as no port (RFC 3986 6.2.3, applied by http.NewRequest).
 func sameHost(a, b string) bool {
-	return strings.EqualFold(strings.TrimSuffix(a, ":"), strings.TrimSuffix(b, ":"))
+	return strings.EqualFold(strings.TrimRight(a, ":"), strings.TrimRight(b, ":"))
 }
 
 // endsInNumber: inet_aton / WHATWG style numeric host (decimal, hex, octal, short forms, trailing dot) which Go does not treat as an IP literal.
@@ -377,6 +377,9 @@ func (h *harness) checkRequests(c *webCase, keyFor func(hop int, clause string) 
 			w["offending_request"] = q
 			h.r.Violation(keyFor(q.Hop, clause), fmt.Sprintf("%s: %s (request #%d of the resolution of %s: %s)", clause, what, q.Hop, c.did, q.URL), w)
 			continue
+		}
+		if strings.TrimRight(q.Host, ":") == "" {
+			h.r.Unspecified("did:web request without any host (identifier whose host element consists of ':' only)")
 		}
 		if endsInNumber(hostname) {
 			h.r.Unspecified("did:web request to a numeric host (inet_aton/WHATWG IPv4 spelling such as 2130706433, 0x7f000001, 0177.0.0.1, 1.2.3.4.) that Go does not parse as an IP literal")
